@@ -66,7 +66,7 @@ def expectedGates : List (String × Nat × Nat × String × String) := [
   ("ClassPrivateStaticMethod", 1, 0, "branch", "through SymbolFeature"),
   ("ClassStaticBlocks", 3, 0, "branch", "lowered to an IIFE after the class"),
   ("ClassStaticField", 1, 0, "branch", "lowered to __publicField after the class"),
-  ("ConstAndLet", 3, 3, "branch+error-not-lowered", "generated declarations use var; user const/let is an error"),
+  ("ConstAndLet", 4, 3, "branch+error-not-lowered", "generated declarations use var (incl. the variable of a nested TypeScript namespace / enum); user const/let is an error"),
   ("Decorators", 3, 0, "branch", "lowered to __decorateElement & co."),
   ("DefaultArgument", 0, 2, "error-not-lowered", "one direct, one deferred through invalidLog.syntaxFeatures"),
   ("Destructuring", 0, 6, "error-not-lowered", "four direct, two deferred"),
